@@ -267,7 +267,7 @@ func c03Concurrent(c *Ctx) {
 			if !pass.stmt {
 				vrt.AllStatements = nil
 			}
-			stats := explore.Run(explore.Config{MaxCost: pass.bound, Deadline: c.Deadline, Shard: c.Shard, Shards: c.Shards, ShardDepth: 2, TolerateDivergence: true, MaxDivergences: 16}, func(x *explore.Exec, own bool) {
+			stats := explore.Run(explore.Config{Stop: schedStuck, MaxCost: pass.bound, Deadline: c.Deadline, Shard: c.Shard, Shards: c.Shards, ShardDepth: 2, TolerateDivergence: true, MaxDivergences: 16}, func(x *explore.Exec, own bool) {
 				out, o, berr := c03ConcBody(px, sc, c.Seed, x)
 				if !own {
 					return
